@@ -13,22 +13,26 @@ ASSUME = {
         "A-SIZE: DigitString size counters stay below 2^61 (ds_size_axiom); arguments `positions`/`position` are below 2^28 (preconditions)",
         "memory allocation never fails",
     ],
-    "C01": ["composition (the words of spell(n) executed in order give decimal(n)) is NOT proved; the thorough tier gives bounded evidence only (tools/spell.py)",
+    "C01": ["composition (the words of spell(n) executed in order give decimal(n)) is proved for en, es, fr (spelling drivers); for pt, it, de, nl it is NOT proved: the thorough tier gives bounded evidence only (tools/spell.py)",
+            "the drivers are stated on exec_group + format_and_value; the corollary for text2digits composes the driver with text2digits' own contract on paper; the scanner (number inside a sentence) is not covered by the drivers",
+            "A-SPLIT / A-DASH (English hyphenated tens-units): str::split('-') is uninterpreted with one axiom (two dash-free pieces joined by a dash split back into them); the hoisted call exec_group(word.split('-')) is assumed to compute the fold of the word model over the parts",
             "WordSplitter (daachorse) contract assumed; Italian/German/Dutch values assumed to come from Default::default"],
     "C02": ["whole-stream losslessness of tokenize is assumed inside unit scan (proved per token in unit tok); Vec::drain/insert and [T]::join have assumed contracts"],
     "C03": ["partial correctness: termination of iterator-driven loops and of the apply<->exec_group recursion is not proved"],
-    "C04": ["multi-word and glued ordinals: composition not proved (bounded ordinal search in the thorough tier)"],
+    "C04": ["multi-word ordinals: composition proved for en (all ranks below 10^12) and es (1..1999, four forms); for fr, pt, it, de, nl not proved (bounded ordinal search in the thorough tier)"],
     "C05": ["f64 value = parse_f64(text), uninterpreted; whole-phrase decimal round trip not proved (bounded decimal search in the thorough tier)"],
     "C06": ["f64 value = parse_f64(text), uninterpreted"],
-    "C07": ["the two-run statement validator(span) = occurrence is not proved; the refusing direction of exec_group is not specified"],
-    "C08": ["the pair statement over [0,99]^2 is not a theorem here; the thorough tier sweeps that finite space exhaustively on the real crate (bounded stand-in)"],
-    "C09": ["f64 `<` is an assumed helper (f64_lt uninterpreted); monotonicity across two thresholds is a two-run statement, not proved"],
+    "C07": ["the two-run statement validator(span) = occurrence is not proved (both directions of the validator, and the scanner's use of push, are specified per call)"],
+    "C08": ["the pair statement over [0,99]^2 is a theorem at the level of the word model for en and es (first word of b after a; no conjunction); for the other languages and for the conjunction joiner the thorough tier sweeps that finite space exhaustively on the real crate (bounded stand-in)",
+            "the step from 'the word is refused outright' to 'the rewritten text shows two numbers' is the generic scanner contract of C07, composed on paper"],
+    "C09": ["inside Verus f64 `<` is uninterpreted (f64_lt); its IEEE facts are proved separately by Kani on the same expression; monotonicity of whole outputs across two thresholds is a two-run statement (paper corollary)",
+            "Kani/CBMC's model of IEEE-754 comparison is trusted"],
     "C10": ["rewrite(A S B) = rewrite(A) S rewrite(B) is a two-run statement, not proved; the single-run reset / locality contracts are"],
     "C11": ["the two-run statement is not proved; str::to_lowercase is an uninterpreted spec function"],
     "C13": ["the seven interpreters are contract-only stubs in unit fac (proved in their own units)"],
     "C14": ["no concurrency semantics in the verifier: Send + Sync by rustc's auto traits; history independence follows from the syntactic frame scan only on paper"],
-    "C15": ["iter(stream) = batch(stream) is a two-run statement, not proved; the default bodies of the Token trait's hint methods are not verified"],
-    "C16": ["the k-zeros + spell(n) sweep is not a theorem here (bounded zero-prefix search in the thorough tier)"],
+    "C15": ["iter(stream) = batch(stream) is a two-run statement, not proved; the default bodies of the Token trait's hint methods are pinned text with an assumed contract (a change makes the unit undecided; the bounded stand-in then runs tokens that keep the defaults)"],
+    "C16": ["zero^z spell(n) is a theorem for en, es, fr (spelling drivers, every z and every n below 10^12); for pt, it, de, nl not proved (bounded zero-prefix search in the thorough tier)"],
     "C17": ["the two-run statement is not proved; char classes (is_alphanumeric, is_alphabetic, is_whitespace) are uninterpreted"],
     "C18": ["neighbours containing '-' go through the hoisted (assumed) hyphen path of apply"],
 }
